@@ -184,6 +184,10 @@ func c01CheckB(c *Case, r c01Run, fuzzing bool, cli bool, key string, budget int
 			if f == "" && flag == "-dbg-ast" && (dr.Exit == 0) != (lib.Class != "syntax") {
 				f = fmt.Sprintf("exit status %d although the run of the same text ends as %s", dr.Exit, lib.Class)
 			}
+			if f == "" && flag == "-dbg-lex" && dr.Exit != 0 && lib.Class != "syntax" {
+				// (a text that parses also lexes)
+				f = fmt.Sprintf("exit status %d although the run of the same text ends as %s", dr.Exit, lib.Class)
+			}
 			if f != "" {
 				c.Violation(fmt.Sprintf("%s (binary, %s): %s | stderr: %s | program: %s | selectors: %q", key, flag, f, clip(string(dr.Stderr), 200), clip(r.prog, 200), r.sels), nil,
 					map[string]any{"program": r.prog, "selectors": r.sels, "flag": flag, "stderr": string(dr.Stderr), "exit": dr.Exit})
@@ -653,8 +657,48 @@ func c01Cases(tier string) int {
 	return n + 120000
 }
 
+// c01DbgLex: the token listing of valid programs in which divisions, regex literals and strings holding slashes meet:
+// status 0, the listing ends with EOF, and it shows as many regex tokens as the program has regex literals
+func c01DbgLex(c *Case) {
+	for _, t := range []struct {
+		prog    string
+		regexes int
+	}{
+		{"{ print a / 2, \"x/y\" }", 0}, {"{ print a / b / c }", 0}, {"{ print a / b; x ~ /re/ }", 1}, {"{ x = a / b\ny = c / d\nz = 1 }", 0},
+		{"{ print \"a=b\" ~ /=b/ }", 1}, {"{ print $ ~ /=\"/ }", 1}, {"{ x /= 2; y = /=+/; z = x /2/ 1 }", 1}, {"/re/ { print 4 / 2 } /=x/", 2},
+		{"{ print (1) / 2 / [3][0] / $.a / 'q' }", 0}, {"{ print 1 / 2 # a/b\n}", 0}, {"{ a[1] /= 2; print f(/x/, /y/) / 2 }", 2}, {"{ if (x ~ /a/) print 1 / 2; else print /b/ }", 2},
+	} {
+		r := RunCli(c.env.Jqawk, []string{"-dbg-lex", "--", t.prog}, nil, c.env.Scratch, 60*time.Second)
+		if r.TimedOut {
+			c.Inconclusive("cli-timeout")
+			continue
+		}
+		c.NonTrivial("dbg-lex:" + t.prog)
+		c.Count("dbg_lex_listings")
+		out := string(r.Stdout)
+		f := cliFault(r)
+		switch {
+		case f != "":
+		case r.Exit != 0:
+			f = fmt.Sprintf("exit status %d for a valid program, stderr %q", r.Exit, clip(string(r.Stderr), 100))
+		case !strings.HasSuffix(strings.TrimSpace(out), "EOF"):
+			f = "the listing does not end with EOF"
+		case strings.Count(out, "Regex(") != t.regexes:
+			f = fmt.Sprintf("the listing shows %d regex tokens, the program has %d regex literals", strings.Count(out, "Regex("), t.regexes)
+		}
+		if f != "" {
+			c.Violation(fmt.Sprintf("-dbg-lex %q: %s | listing %q", t.prog, f, clip(out, 200)), nil, map[string]any{"program": t.prog, "stdout": out, "stderr": string(r.Stderr)})
+		} else {
+			c.Held()
+		}
+	}
+}
+
 func c01Run_(c *Case) {
 	i := c.Idx
+	if i == 0 {
+		c01DbgLex(c)
+	}
 	switch {
 	case i < c01E1:
 		pl := c01Placements()
